@@ -196,9 +196,9 @@ theorem step_FOK (w : World) (e : Event) (h : FOK w) : FOK (step w e) := by
     cases hE : evConnected w k with
     | none => exact h
     | some p => exact evConnected_FOK h hE
-  | connFail k =>
+  | connFail k e =>
     simp only [step]
-    cases hE : evConnFail w k with
+    cases hE : evConnFail w k e with
     | none => exact h
     | some w' =>
       unfold evConnFail at hE
